@@ -32,7 +32,7 @@ type stRItem struct {
 	mark    bool
 	it      *stItem
 	rec     []string // recorded shards: C 1, P/T one per delta, W/Y one per inserted tuple
-	tokKind string   // L/PL: e | t | b
+	tokKind string   // L/PL: e | t | b | n
 	tokN    string
 }
 
@@ -177,6 +177,8 @@ func (p *stParser) pageTok(ri *stRItem) {
 	case "e", "b":
 	case "t":
 		ri.tokN = p.shard()
+	case "n":
+		ri.tokN = strconv.Itoa(p.nat())
 	default:
 		panic("bad page token " + ri.tokKind)
 	}
@@ -500,6 +502,9 @@ func (e *stEnv) replay(l *stLine) {
 		switch ri.tokKind {
 		case "b":
 			it.tok = pick(r, []string{"abc", "123", "00000000-0000-0000-0000-00000000000g"})
+		case "n":
+			j, _ := strconv.Atoi(ri.tokN)
+			it.refSet, it.ref, it.tok = true, j, c.nexts[j]
 		case "t":
 			if u, ok := shardMap[ri.tokN]; ok {
 				it.tok = u
@@ -624,6 +629,7 @@ func streamStoreWitness(t *testing.T, o *Out) {
 		run("C07-d-interleaved-"+kind, func(w *stWitness) {
 			w.store(w.rows(5))
 			first := &stItem{kind: kind, q: all, size: 2, via: w.c.r.Intn(3)}
+			firstIdx := w.c.n
 			w.c.run(first)
 			returned := w.c.rows[0].t // the first page is the first two rows in shard order
 			w.c.run(&stItem{kind: "X", del: []stTuple{returned}})
@@ -632,9 +638,10 @@ func streamStoreWitness(t *testing.T, o *Out) {
 				{ns: "groups", obj: w.s(2), rel: "view", sub: stSub{set: true, ns: "files", obj: w.s(1), rel: "view"}},
 			}
 			w.store(extra)
-			tok := first.next
+			tok, from := first.next, firstIdx
 			for n := 0; tok != "" && n < 10; n++ {
-				it := &stItem{kind: kind, q: all, size: 2, via: first.via, tok: tok}
+				it := &stItem{kind: kind, q: all, size: 2, via: first.via, tok: tok, refSet: true, ref: from}
+				from = w.c.n
 				w.c.run(it)
 				tok = it.next
 			}
